@@ -817,6 +817,12 @@ def _tracks_state_objs(e: ast.AST, fi: FuncInfo, depth=0) -> bool:
 def _operand_list(e: ast.AST, fi: FuncInfo) -> Optional[str]:
     """'varargs' if e is list(<vararg>) (order preserving), 'single' if [<loop var over vararg>]"""
     va = fi.node.args.vararg.arg if fi.node.args.vararg else None
+    if isinstance(e, ast.Name) and e.id != va:
+        from ..model import single_defs
+        d = single_defs(fi.node).get(e.id)           # `targets = list(states)` … generator(storage, targets)
+        if d is not None and not any(method_call(c) and src(method_call(c)[0]) == e.id and method_call(c)[1] in ("sort", "reverse", "append", "extend", "insert", "remove", "pop", "clear")
+                                     for c in walk_no_nested(fi.node)):
+            e = d
     if isinstance(e, ast.Call) and isinstance(e.func, ast.Name) and e.func.id in ("list", "tuple") and e.args and src(e.args[0]) == va:
         return "varargs"
     if isinstance(e, ast.Name) and e.id == va:
@@ -829,6 +835,40 @@ def _operand_list(e: ast.AST, fi: FuncInfo) -> Optional[str]:
     if isinstance(e, ast.ListComp) and len(e.generators) == 1 and src(e.generators[0].iter) == va and not e.generators[0].ifs and src(e.elt) == src(e.generators[0].target):
         return "varargs"
     return None
+
+
+def order_established(repo: Repo, fi: FuncInfo, node, cfg: CFG):
+    """is the requested member order established when `node` of the product-space method `fi` executes?  (local, callers, missing):
+    local – a self.reorder(...) dominates the node in the method itself; otherwise every call site of the method on a product space
+    must be dominated by `self.reorder(<the subsystems it passes on>)` in its own function; `missing` names those that are not"""
+    from ..types import Typer as _Typer
+    fn = fi.node
+    ro = {n for n in cfg.nodes for y in walk_node(n) if method_call(y) and method_call(y)[1] == "reorder" and src(method_call(y)[0]) == "self"}
+    local = bool(ro) and node is not None and cfg.must_pass_through(node, ro)
+    missing: List[str] = []
+    n_callers = 0
+    if local:
+        return True, 0, missing
+    for g in repo.scan_functions():
+        if not g.module.name.startswith("photon_weave") or g.node is fn:
+            continue
+        calls = [y for y in walk_no_nested(g.node) if method_call(y) and method_call(y)[1] == fn.name and src(method_call(y)[0]) != "self"]
+        if not calls:
+            continue
+        ty = _Typer(repo, g)
+        calls = [y for y in calls if "ProductState" in (ty.classes(method_call(y)[0]) or {"ProductState"})]
+        if not calls:
+            continue
+        gcfg = CFG(g.node)
+        for y in calls:
+            n_callers += 1
+            gn = gcfg.node_containing(y)
+            passed = {src(a_) for a_ in y.args}
+            gro = {n for n in gcfg.nodes for z in walk_node(n) if method_call(z) and method_call(z)[1] == "reorder" and src(method_call(z)[0]) == "self"
+                   and z.args and {src(a_) for a_ in z.args} <= passed}
+            if gn is None or not gro or not gcfg.must_pass_through(gn, gro):
+                missing.append(f"{g.qualname}:{y.lineno}")
+    return False, n_callers, missing
 
 
 @rule("ESCCALL")
@@ -920,8 +960,6 @@ def esccall(repo: Repo) -> List[Ob]:
                     elif is_state:
                         (obs.append(ok("ESCCALL", fi, f"reshape:{recv}", ("C01", "C02", "C03"), n, "state reshaped over the storage list")) if over_storage else
                          obs.append(bad("ESCCALL", fi, f"reshape:{recv}", ("C01", "C02", "C03"), n, f"the stored state is reshaped with `{t[:60]}` – not the member dimensions in storage order")))
-    if sites < 12:
-        raise AnalysisError(f"ESCCALL: {sites} generator call sites (floor 12)")
     # a reduced tensor built with a storage-order-preserving string (trace_out_* / measure_*) has its factors in *storage* order;
     # an operator supplied by the caller is laid out over the operands in the order *given*.  Multiplying the two is only
     # meaningful after the product space itself was reordered to the operand order in the same function.
@@ -980,6 +1018,60 @@ def esccall(repo: Repo) -> List[Ob]:
                      obs.append(bad("ESCCALL", fi, f"storage-order-meets-operand-order#{k}", ("C09", "C06", "C01", "C03"), x,
                                     f"`{st_name}` comes from ESC.{storage[st_name]} and keeps the members in *storage* order, but it is multiplied with a caller-supplied operator whose factors follow the order "
                                     "the operands were *given* in: unless the product space was reordered to that order, the operator factors act on the wrong subsystems")))
+    # a contraction of the stored tensor with a caller-supplied operator whose subscripts are a *literal* fixes in the source which axes
+    # the operator meets, while which member sits on which axis is decided at run time by state_objs: it is only meaningful when the
+    # requested order has been established first – by self.reorder(*states) in the same method, or by every caller before it delegates
+    from ..types import Typer as _Typer
+    for fi in [f for f in repo.cls("ProductState").methods.values() if f.qualname not in getattr(repo, "absorbed", ())]:
+        fn = fi.node
+        cfg = None
+        k = 0
+        state_names = set()
+        for _ in range(2):
+            for a in walk_no_nested(fn):
+                if isinstance(a, ast.Assign) and len(a.targets) == 1 and isinstance(a.targets[0], ast.Name):
+                    base = a.value
+                    while method_call(base) and method_call(base)[1] in ("reshape", "astype", "copy"):
+                        base = method_call(base)[0]
+                    if isinstance(base, ast.Call) and call_np(base) in ("reshape", "asarray", "array") and base.args:
+                        base = base.args[0]
+                    if src(base) == "self.state" or (isinstance(base, ast.Name) and base.id in state_names):
+                        state_names.add(a.targets[0].id)
+        for x in walk_no_nested(fn):
+            if not (isinstance(x, ast.Call) and call_np(x) == "einsum" and len(x.args) >= 3):
+                continue
+            cfg = cfg or CFG(fn)
+            node = cfg.node_containing(x)
+            sub = x.args[0]
+            lit = None
+            if isinstance(sub, ast.Constant) and isinstance(sub.value, str):
+                lit = sub.value
+            elif isinstance(sub, ast.Name) and node is not None:
+                ds = cfg.reaching_defs(node, sub.id)
+                vals = [d.ast.value for d in ds if d is not cfg.entry and d.kind == "stmt" and isinstance(d.ast, ast.Assign) and len(d.ast.targets) == 1 and src(d.ast.targets[0]) == sub.id]
+                if ds and len(vals) == len(ds) and all(isinstance(v, ast.Constant) and isinstance(v.value, str) for v in vals):
+                    lit = vals[0].value
+            if lit is None:
+                continue
+            opnds = x.args[1:]
+            from_state = [o for o in opnds if any((isinstance(y, ast.Name) and y.id in state_names) or src(y) == "self.state" for y in ast.walk(o))]
+            params = set(fi.params) - {"self"}
+            loopvars = {src(l.target) for l in ast.walk(fn) if isinstance(l, (ast.For, ast.comprehension)) and any(isinstance(y, ast.Name) and y.id in params for y in ast.walk(l.iter))}
+            from_caller = [o for o in opnds if o not in from_state and any(isinstance(y, ast.Name) and (y.id in params or y.id in loopvars) for y in ast.walk(o))]
+            if not from_state or not from_caller:
+                continue
+            k += 1
+            local, n_callers, missing = order_established(repo, fi, node, cfg)
+            good = local or (n_callers > 0 and not missing)
+            props = ESC_PROPS.get({"apply_kraus": "apply_operator_matrix", "measure_POVM": "apply_operator_matrix"}.get(fn.name, "apply_operator_matrix"), ("C01",))
+            props = {"apply_kraus": ("C06",), "measure_POVM": ("C09",), "apply_operation": ("C01", "C03")}.get(fn.name, ("C01", "C06", "C09"))
+            (obs.append(ok("ESCCALL", fi, f"literal-contraction#{k}", props, x, "the requested order is established before this fixed-axis contraction")) if good else
+             obs.append(bad("ESCCALL", fi, f"literal-contraction#{k}", props, x,
+                            f"`{lit}` contracts the stored tensor with a caller-supplied operator on axes fixed in the source, but which member sits on which axis is decided by state_objs at run time: "
+                            + ("no self.reorder(...) precedes it here" + (f" and the caller(s) {', '.join(missing)} can reach the call without `self.reorder(*<the same subsystems>)`" if missing else " and no caller establishes the order")))))
+    lits = sum(1 for o in obs if o.key.startswith("literal-contraction"))
+    if sites + lits < 12:
+        raise AnalysisError(f"ESCCALL: {sites} generator call sites (floor 12)")
     # CompositeEnvelope.trace_out: reorder(*states) precedes ps.trace_out(*states) (the generator keeps storage order)
     ce = repo.func("CompositeEnvelope.trace_out")
     cfg = CFG(ce.node)
